@@ -120,6 +120,11 @@ pub fn request_bytes(path: &str, extra: &[(String, String)]) -> Vec<u8> {
     }
     frame_bytes(&req.headers().generate_frame())
 }
+/// a HEADERS frame carrying exactly these fields
+pub fn headers_bytes(fields: &[(&str, &str)]) -> Vec<u8> {
+    let headers: Headers = fields.iter().map(|(k, v)| (k.to_string(), v.to_string())).collect();
+    frame_bytes(&headers.generate_frame())
+}
 pub fn response_bytes(status: &str, extra: &[(String, String)]) -> Vec<u8> {
     let mut h: Vec<(String, String)> = vec![(":status".to_string(), status.to_string())];
     h.extend(extra.iter().cloned());
